@@ -46,6 +46,9 @@ def gen_curve(rng, freq, style=None, f0=None):
     return np.maximum(c, 0.01)
 
 
+ZERO_SAMPLES = False      # switched on by the harnesses whose comparison treats NaN / +-inf / undefined alike (C05, C11)
+
+
 def gen_curve_set(rng, freq, nrows, outliers=True):
     """a window set around a common resonance with planted outliers and odd curves"""
     spread = float(rng.choice([0.12, 0.25, 0.4]))
@@ -59,7 +62,11 @@ def gen_curve_set(rng, freq, nrows, outliers=True):
             rows.append(gen_curve(rng, freq))
         else:
             rows.append(gen_curve(rng, freq, "bump" if rng.random() < 0.7 else "noisy", f0=f0 * float(np.exp(rng.normal(0, spread)))))
-    return np.array(rows)
+    rows = np.array(rows)
+    if ZERO_SAMPLES and rng.random() < 0.08:
+        # a dead sample: amplitudes >= 0 are legal, an exact 0 has log = -inf (a value, not a missing sample)
+        rows[int(rng.integers(0, nrows)), int(rng.integers(0, len(freq)))] = 0.0
+    return rows
 
 
 def gen_range(rng, freq):
@@ -217,9 +224,21 @@ def parse_stats(line):
     return out
 
 
+def _finite_or_none(v):
+    """numpy reports an undefined statistic as NaN or +-inf, the model's Float arithmetic may produce either as well (log 0 = -inf,
+    inf - inf = NaN): all of them mean "undefined" """
+    if isinstance(v, float):
+        return v if math.isfinite(v) else None
+    if isinstance(v, list):
+        return [_finite_or_none(x) for x in v]
+    return v
+
+
 def cmp_stats(im, mo, scale=1.0, rtol=1e-8):
     """returns (list of differing keys, near_tie_keys)"""
     bad, near = [], []
+    im = {k: _finite_or_none(v) for k, v in im.items()}
+    mo = {k: _finite_or_none(v) for k, v in mo.items()}
     for k in im:
         a, b = im[k], mo.get(k)
         # +-n sigma values are undefined when the standard deviation is (numpy: NaN or inf from 0/0 resp. eps/0)
@@ -302,20 +321,22 @@ def parse_debug(msgs):
     return its
 
 
-def fdwra_near_tie(dbg, n, dfn, peak_sets, scale):
-    return fdwra_near_tie_index(dbg, n, dfn, peak_sets, scale) is not None
+def fdwra_near_tie(dbg, n, dfn, peak_sets, scale, exact_zero=False):
+    return fdwra_near_tie_index(dbg, n, dfn, peak_sets, scale, exact_zero) is not None
 
 
-def fdwra_near_tie_index(dbg, n, dfn, peak_sets, scale):
+def fdwra_near_tie_index(dbg, n, dfn, peak_sets, scale, exact_zero=False):
     """index of the first iteration in which some decision (zero guards, convergence limits, accept bounds) is within
     rounding distance of its threshold: in exact arithmetic it is decided one way, in floating point either way"""
     eps = 1e-9
     dfn = {"log-normal": "lognormal"}.get(dfn, dfn)
     for j, it in enumerate(dbg):
+        # exact_zero: the data are small integers under the normal distribution, so means, the mean-curve peak frequency and a zero standard
+        # deviation are computed exactly by numpy and by the model alike -- the zero guards are then exact events, not rounding ties
         for k in ("std_fn_before", "std_fn_after"):
-            if k in it and abs(it[k]) < eps:
+            if not exact_zero and k in it and abs(it[k]) < eps:
                 return j
-        if "diff_before" in it and abs(it["diff_before"]) < eps * scale:
+        if not exact_zero and "diff_before" in it and abs(it["diff_before"]) < eps * scale:
             return j
         for k in ("d_diff", "s_diff"):
             if k in it and abs(it[k] - 0.01) < 1e-7:
@@ -334,7 +355,7 @@ def fdwra_near_tie_index(dbg, n, dfn, peak_sets, scale):
     return None
 
 
-def fdwra_with_trace(obj, n, maxit, dfn, dmc, rng_):
+def fdwra_with_trace(obj, n, maxit, dfn, dmc, rng_, exact_zero=False):
     import hvsrpy
     import logging
     lg = logging.getLogger("hvsrpy.window_rejection")
@@ -354,8 +375,8 @@ def fdwra_with_trace(obj, n, maxit, dfn, dmc, rng_):
     dbg = parse_debug(cap.msgs)
     hs = obj.hvsrs if isinstance(obj, hvsrpy.HvsrAzimuthal) else [obj]
     peak_sets = [list(getattr(h, "_main_peak_frq", [])) for h in hs]
-    near = fdwra_near_tie(dbg, n, dfn, peak_sets, float(np.max(obj.frequency)))
-    fdwra_with_trace.last_index = fdwra_near_tie_index(dbg, n, dfn, peak_sets, float(np.max(obj.frequency)))
+    near = fdwra_near_tie(dbg, n, dfn, peak_sets, float(np.max(obj.frequency)), exact_zero)
+    fdwra_with_trace.last_index = fdwra_near_tie_index(dbg, n, dfn, peak_sets, float(np.max(obj.frequency)), exact_zero)
     return ret, dbg, near
 
 
@@ -448,9 +469,15 @@ class Mirror:
             h.valid_peak_boolean_mask[i] = False
         self.lines.append(f"hv.manual {self.oid} {az} {fnvec(idxs)}")
 
+    def setmasks(self, vw, vp, az=0):
+        h = self.obj if self.kind == "T" else self.obj.hvsrs[az]
+        h.valid_window_boolean_mask = np.array(vw, dtype=bool)      # the two masks are public attributes: any combination is a legal state
+        h.valid_peak_boolean_mask = np.array(vp, dtype=bool)
+        self.lines.append(f"hv.setmasks {self.oid} {az} {fbvec(vw)} {fbvec(vp)}")
+
     def fdwra(self, n, maxit, dfn, dmc, rng_):
         import hvsrpy
-        ret, dbg, near = fdwra_with_trace(self.obj, n, maxit, dfn, dmc, rng_)
+        ret, dbg, near = fdwra_with_trace(self.obj, n, maxit, dfn, dmc, rng_, exact_zero=getattr(self, "exact_zero", False))
         self.last_debug = dbg
         self.last_near_tie = near
         self.last_near_index = fdwra_with_trace.last_index
@@ -474,9 +501,13 @@ def gen_op(rng, m):
     if u < 0.6:
         return ("fdwra", float(rng.choice([0.5, 1.0, 1.5, 2.0, 2.5, 3.0])), int(rng.choice([1, 2, 3, 50])),
                 str(rng.choice(DISTS)), str(rng.choice(DISTS)), gen_range(rng, m.freq) if rng.random() < 0.5 else (None, None))
-    if u < 0.75:
+    if u < 0.72:
         mask = [bool(b) for b in (rng.random(nw) < 0.75)]
         return ("tmask", mask)
+    if u < 0.8:
+        vw = [bool(b) for b in (rng.random(nw) < 0.8)]
+        vp = [bool(a and b) for a, b in zip(vw, rng.random(nw) < 0.8)] if rng.random() < 0.6 else [bool(b) for b in (rng.random(nw) < 0.7)]
+        return ("setmasks", vw, vp, 0 if m.kind == "T" else int(rng.integers(0, len(m.rows_per_az))))
     k = int(rng.integers(1, max(2, nw // 3)))
     idx = sorted(set(int(i) for i in rng.integers(0, nw, k)))
     az = 0 if m.kind == "T" else int(rng.integers(0, len(m.rows_per_az)))
@@ -492,6 +523,8 @@ def apply_op(m, op):
         m.tmask(op[1]); return None
     if op[0] == "manual":
         m.manual(op[1], op[2]); return None
+    if op[0] == "setmasks":
+        m.setmasks(op[1], op[2], op[3]); return None
     raise ValueError(op)
 
 
